@@ -219,7 +219,7 @@ inductive SizeOutcome where
   | ok (plan : List Meta) (marked : List Nat)
   | panic (marked : List Nat)
   | outOfFuel
-deriving Repr
+deriving Repr, DecidableEq
 
 /-- `largeTotalIndexSizeFilter.plan`; `limit` is `int64(float64(totalMaxIndexSizeBytes)*0.85)`,
     `marked` accumulates the ids marked for no compaction in this call (in order) -/
@@ -236,11 +236,12 @@ def sizePlan (ranges : List Int) (limit : Int) : Nat → Excl → List Nat → L
 /-! ### verticalCompactionDownsampleFilter.Plan -/
 
 /-- The outer loop: plans that contain overlapping blocks must not contain downsampled blocks.
-    `extra` are the ids marked by this loop (`noCompactMarked`), `base` the marks known to the
-    planner (`noCompBlocksFunc`).  The marks placed by the inner size filter are not carried over
-    to the next round by the Go code (it rebuilds `copiedNoCompactMarked`), but they are in the
-    bucket; the model keeps both lists. -/
-def vertPlan (ranges : List Int) (limit : Int) (base : Excl) :
+    `extra` is the loop's own mark set (`noCompactMarked`, handed to the size filter as
+    `extraNoCompactMarked`), `base` the marks known to the planner (`noCompBlocksFunc`), `marked`
+    everything marked in the bucket by this call.  `carry = true` is the repaired code: the size
+    filter also records its marks in `extra`, so they survive into the next round; with
+    `carry = false` (the code as originally written) each round forgets them. -/
+def vertPlan (carry : Bool) (ranges : List Int) (limit : Int) (base : Excl) :
     Nat → List Nat → List Nat → List Meta → SizeOutcome
   | 0, _, _, _ => .outOfFuel
   | fuel + 1, extra, marked, ms =>
@@ -248,10 +249,11 @@ def vertPlan (ranges : List Int) (limit : Int) (base : Excl) :
     | .outOfFuel => .outOfFuel
     | .panic mk => .panic (marked ++ mk)
     | .ok p mk =>
+      let extra' := if carry then extra ++ mk else extra
       if (selectOverlapping p).isEmpty then .ok p (marked ++ mk)
       else
         let down := (p.filter (fun m => m.res != 0)).map (·.id)
         if down.isEmpty then .ok p (marked ++ mk)
-        else vertPlan ranges limit base fuel (extra ++ down) (marked ++ mk ++ down) ms
+        else vertPlan carry ranges limit base fuel (extra' ++ down) (marked ++ mk ++ down) ms
 
 end Thanos.Planner
